@@ -1,5 +1,13 @@
 import Abverif.Model.Pmce
 import Abverif.Proofs.Lemmas.PmceData
+import Abverif.Proofs.Lemmas.PmceRtOffer0
+import Abverif.Proofs.Lemmas.PmceRtResp0
+import Abverif.Proofs.Lemmas.PmceRtOffer1
+import Abverif.Proofs.Lemmas.PmceRtResp1
+import Abverif.Proofs.Lemmas.PmceRtOffer2
+import Abverif.Proofs.Lemmas.PmceRtResp2
+import Abverif.Proofs.Lemmas.PmceRtOffer3
+import Abverif.Proofs.Lemmas.PmceRtResp3
 /-
 C12 — per-message compression is lossless and negotiated soundly: property theorems.
 
@@ -31,10 +39,6 @@ theorem default_window_is_max (n : Nat) (h : winOk n = true) : n ≤ defaultWind
 is required -/
 theorem one_not_permissible : intInV windowSizePermissible none = none := by decide
 
-/-- the octets re-appended by `end_decompress_message` are the RFC 7692 tail, and exactly as many octets are
-stripped by `end_compress_message` -/
-theorem tail_strip_consistent : tailBytes = rfcTail ∧ stripLen = rfcTail.length := by decide
-
 /-! ### completeness of the enumerations -/
 
 theorem mem_bools (b : Bool) : b ∈ bools := by cases b <;> simp [bools]
@@ -53,16 +57,27 @@ theorem Offer.mem_all (o : Offer) (h : o.guard = true) : o ∈ Offer.all := by
 
 /-! ### round trips over the whole lattice -/
 
-/-- what the server's parser can know of an offer: `accept_no_context_takeover` is not transmitted when
-false and defaults to `True` in `PerMessageDeflateOffer.parse` -/
-def Offer.normalize (o : Offer) : Offer := { o with acceptNct := true }
-
-/-- the header a client renders for an offer, as `_parseExtensionsHeader` + `Offer.parse` read it -/
-def Offer.reparse (o : Offer) : Option Offer :=
-  (findDeflate (parseExtensionsHeader o.render)).bind Offer.parse
+theorem Offer.mem_slice (o : Offer) (h : o.guard = true) : o ∈ Offer.slice o.acceptNct o.acceptMwb := by
+  obtain ⟨a, b, c, w⟩ := o
+  simp only [Offer.slice, List.mem_flatMap, List.mem_map]
+  exact ⟨c, mem_bools c, w, mem_winVals h, rfl⟩
 
 theorem parse_render_offer_all : ∀ o ∈ Offer.all, o.reparse = some o.normalize := by
-  decide +kernel
+  intro o ho
+  have hg : o.guard = true := by
+    simp only [Offer.all, List.mem_flatMap, List.mem_map] at ho
+    obtain ⟨a, _, b, _, c, _, w, hw, rfl⟩ := ho
+    simp only [winVals, List.mem_cons] at hw
+    rcases hw with rfl | hw
+    · rfl
+    · simp [Offer.guard, winOk, hw]
+  have hm := o.mem_slice hg
+  obtain ⟨a, b, c, w⟩ := o
+  cases a <;> cases b
+  · exact parse_render_offer_slice0 _ hm
+  · exact parse_render_offer_slice1 _ hm
+  · exact parse_render_offer_slice2 _ hm
+  · exact parse_render_offer_slice3 _ hm
 
 /-- **round trip, offers (whole lattice).** The three transmitted fields survive render → header parser →
 `Offer.parse` exactly; the fourth comes back as the parser's default. -/
@@ -80,18 +95,16 @@ theorem parse_render_offer_literal_fails :
     ∃ o : Offer, o.guard = true ∧ o.reparse ≠ some o :=
   ⟨⟨false, false, false, 0⟩, by decide +kernel⟩
 
-/-- the response as the client will parse it -/
-def OfferAccept.response (a : OfferAccept) : Response :=
-  ⟨a.reqMwb, a.reqNct, a.offer.reqMwb, a.offer.reqNct⟩
-
-def OfferAccept.reparse (a : OfferAccept) : Option Response :=
-  (findDeflate (parseExtensionsHeader a.render)).bind Response.parse
-
 theorem parse_render_response_all :
     ∀ sn ∈ bools, ∀ sw ∈ winVals, ∀ cn ∈ bools, ∀ cw ∈ winVals,
       (OfferAccept.reparse ⟨⟨true, true, sn, sw⟩, cn, cw, none, none, none⟩)
         = some ⟨cw, cn, sw, sn⟩ := by
-  decide +kernel
+  intro sn _ sw hsw cn _ cw hcw
+  cases sn <;> cases cn
+  · exact parse_render_response_slice0 sw hsw cw hcw
+  · exact parse_render_response_slice1 sw hsw cw hcw
+  · exact parse_render_response_slice2 sw hsw cw hcw
+  · exact parse_render_response_slice3 sw hsw cw hcw
 
 theorem OfferAccept.render_congr (a : OfferAccept) :
     a.render = (OfferAccept.render ⟨⟨true, true, a.offer.reqNct, a.offer.reqMwb⟩, a.reqNct, a.reqMwb, none, none, none⟩) := rfl
@@ -150,15 +163,6 @@ theorem negotiate_eq (o : Offer) (x : AcceptArgs) (y : RAcceptArgs) :
 
 /-! ### soundness of the negotiation -/
 
-/-- Spec (RFC 7692 §7.1): what a response may contain given the offer the client sent.
-`server_*` only when requested and never above the request; requests are honoured; `client_max_window_bits`
-only when the offer carried it, with a permissible value. (`client_no_context_takeover` may always be sent.) -/
-def permittedBy (o : Offer) (r : Response) : Prop :=
-  (r.sNct = true ↔ o.reqNct = true)
-  ∧ (r.sMwb ≠ 0 → r.sMwb ≤ o.reqMwb)
-  ∧ (o.reqMwb ≠ 0 → r.sMwb ≠ 0)
-  ∧ (r.cMwb ≠ 0 → o.acceptMwb = true ∧ winOk r.cMwb = true)
-
 /-- **the server's answer contains only parameters compatible with the client's offer** — for every offer,
 every accept the constructor lets through; the response is the one the client parses from the rendered header
 (`parse_render_response`). -/
@@ -205,9 +209,6 @@ theorem negotiation_compatible (o : Offer) (x : AcceptArgs) (y : RAcceptArgs) (r
     cases h
     exact compat_core _ y hg.2.1 hg.2.2 (by simpa [AcceptArgs.on, Offer.normalize, Offer.guard] using hg.1)
   · cases h
-
-/-- the four negotiated parameters an end holds -/
-def Pmce.params (p : Pmce) : Bool × Bool × Nat × Nat := (p.sNct, p.cNct, p.sMwb, p.cMwb)
 
 /-- **same parameters on both ends when no override is given** (`window_bits`/`no_context_takeover` left `None`
 on both sides) -/
@@ -526,5 +527,158 @@ theorem rxFrame_rsv1_continuation {K : Codec} (r : Rx K) (wf : WireFrame) (hi : 
   unfold rxFrame
   rw [hi]
   simp [rsv1_on_continuation_rejected _ _ _ _ hr]
+
+/-! ### the data path (relative to the codec contract `Codec.Lawful`: H1/H2 are hypotheses) -/
+
+/-- initial halves of a connection on which the extension `p` is in use -/
+def Tx.init (K : Codec) (p : Pmce) : Tx K := ⟨some p, none⟩
+def Rx.init (K : Codec) (p : Pmce) : Rx K := ⟨some p, none, false, false, false, []⟩
+
+/-- **lossless, one direction.** `a` is the sending end's extension object, `b` the receiving end's, the direction
+is compatible (`negotiation_compatible` provides this for every negotiated pair, both ways). Then ANY sequence of
+messages — text or binary, compressed or flagged do-not-compress, sent whole with any fragment size or streamed
+frame by frame in any pieces, so that the 2nd and later messages run on the kept or reset context — whose frames
+reach the receiver cut into ANY chunks, is delivered exactly as sent, in order, and nothing else is delivered.
+(No send limit: `maxMessagePayloadSize = 0`, the default; see `lossless_with_send_limit_fails`.)
+The two directions of a connection use disjoint state (`Tx` is only the deflater, `Rx` only the inflater),
+so they compose. Byte-level framing/masking of the frames is C01/C02/C15. -/
+theorem lossless {K : Codec} (L : K.Lawful) (a b : Pmce) (hc : dirCompatible a b) (msgs : List Msg)
+    (hwf : ∀ m ∈ msgs, m.wf) (wire : List WireFrame)
+    (hw : wire.map WireFrame.toFrame = (sendAll (Tx.init K a) 0 msgs).2.1) :
+    (sendAll (Tx.init K a) 0 msgs).2.2 = msgs.map (fun m => (m.bin, m.data)) ∧
+    ∃ r', rxAll (Rx.init K b) wire = some (r', msgs.map (fun m => (m.bin, m.data))) := by
+  have hin : InStep L a b (Tx.init K a) (Rx.init K b) := ⟨rfl, rfl, rfl, Or.inl ⟨rfl, rfl⟩⟩
+  obtain ⟨h1, r', h2, _⟩ := send_recv_all L a b hc msgs _ _ hin hwf wire hw
+  exact ⟨h1, r', h2⟩
+
+/-- **lossless, both directions of every negotiated connection**: whatever offer / accept / response-accept pass
+the guards (overrides included — U3 is harmless for the data), server→client and client→server are lossless. -/
+theorem lossless_negotiated {K : Codec} (L : K.Lawful) (o : Offer) (x : AcceptArgs) (y : RAcceptArgs)
+    (n : Negotiated) (hn : negotiate o x y = some n) (msgs : List Msg) (hwf : ∀ m ∈ msgs, m.wf)
+    (wire : List WireFrame) :
+    (wire.map WireFrame.toFrame = (sendAll (Tx.init K n.server) 0 msgs).2.1 →
+      ∃ r', rxAll (Rx.init K n.client) wire = some (r', msgs.map (fun m => (m.bin, m.data))))
+    ∧ (wire.map WireFrame.toFrame = (sendAll (Tx.init K n.client) 0 msgs).2.1 →
+      ∃ r', rxAll (Rx.init K n.server) wire = some (r', msgs.map (fun m => (m.bin, m.data)))) := by
+  obtain ⟨h1, h2⟩ := negotiation_compatible o x y n hn
+  exact ⟨fun hw => (lossless L _ _ h1 msgs hwf wire hw).2, fun hw => (lossless L _ _ h2 msgs hwf wire hw).2⟩
+
+theorem wire_of_frames (fs : List Frame) :
+    (fs.map fun f => (⟨f.fin, f.rsv, f.opcode, [f.payload]⟩ : WireFrame)).map WireFrame.toFrame = fs := by
+  induction fs with
+  | nil => rfl
+  | cons f fs ih => simp [WireFrame.toFrame, ih]
+
+/-- the contract is satisfiable and the theorem applies to a concrete run: the toy codec, the U3 negotiation,
+three messages (whole + fragmented, do-not-compress, streamed), delivered intact -/
+example :
+    (rxAll (Rx.init toy ⟨false, false, false, 15, 15, 8⟩)
+      (((sendAll (Tx.init toy ⟨true, true, false, 10, 15, 8⟩) 0
+        [.whole true false (some 3) [1, 2, 3, 4, 5], .whole false true none [7], .stream true false [[8], [9, 10]]]).2.1).map
+          fun f => ⟨f.fin, f.rsv, f.opcode, [f.payload]⟩)).map (·.2)
+      = some [(true, [1, 2, 3, 4, 5]), (false, [7]), (true, [8, 9, 10])] := by
+  have hc : dirCompatible ⟨true, true, false, 10, 15, 8⟩ ⟨false, false, false, 15, 15, 8⟩ := by decide
+  have := lossless toyLawful _ _ hc
+    [.whole true false (some 3) [1, 2, 3, 4, 5], .whole false true none [7], .stream true false [[8], [9, 10]]]
+    (by intro m hm; simp at hm; rcases hm with rfl | rfl | rfl <;> simp [Msg.wf])
+    _ (wire_of_frames _)
+  obtain ⟨r', h⟩ := this.2
+  rw [h]; rfl
+
+/-- `headerOk` is what makes the direction compatible requirement necessary: an inflater that forgets its context
+while the deflater keeps it loses the second message (toy codec; `decNct` without `encNct`) -/
+theorem incompatible_context_loses_data :
+    (rxAll (Rx.init toy ⟨false, true, false, 15, 15, 8⟩)
+      (((sendAll (Tx.init toy ⟨true, false, false, 15, 15, 8⟩) 0
+        [.whole true false none [1, 2], .whole true false none [3]]).2.1).map
+          fun f => ⟨f.fin, f.rsv, f.opcode, [f.payload]⟩)).map (·.2)
+      = some [(true, [1, 2]), (true, [2])] := by
+  decide +kernel
+
+/-- **F17 in the model**: with context takeover, a `sendMessage` refused by `maxMessagePayloadSize` *after*
+compression has already advanced the shared deflater; the refused message never reaches the peer, so every later
+message is inflated against the wrong context. Toy codec, limit 10: `[1,2,3]` is delivered, the 8-octet message is
+refused, then `[9]` arrives as `[10]`. So `lossless` does not extend to a positive send limit. -/
+theorem lossless_with_send_limit_fails :
+    let s := sendAll (Tx.init toy ⟨true, false, false, 15, 15, 8⟩) 10
+      [.whole true false none [1, 2, 3], .whole true false none [0, 0, 0, 0, 0, 0, 0, 0], .whole true false none [9]]
+    s.2.2 = [(true, [1, 2, 3]), (true, [9])]
+    ∧ (rxAll (Rx.init toy ⟨false, false, false, 15, 15, 8⟩)
+        (s.2.1.map fun f => ⟨f.fin, f.rsv, f.opcode, [f.payload]⟩)).map (·.2)
+        = some [(true, [1, 2, 3]), (true, [10])] := by
+  decide +kernel
+
+/-- **do-not-compress**: the message travels verbatim with RSV1 clear on every frame, and the deflater is not
+touched (so it cannot disturb the context of compressed messages around it) -/
+theorem doNotCompress_verbatim {K : Codec} (t : Tx K) (maxPayload : Nat) (bin : Bool) (frag : Option Nat)
+    (payload : Bytes) (fs : List Frame) (t' : Tx K)
+    (h : sendMessage t maxPayload bin true frag payload = (t', .sent fs)) :
+    t' = t ∧ payloads fs = payload ∧ (∀ f ∈ fs, f.rsv = 0) ∧ ∃ f rest, fs = f :: rest ∧ f.opcode = opcodeOf bin := by
+  have key : ∀ (t'' : Tx K), (if 0 < maxPayload ∧ maxPayload < payload.length then (t, SendRes.refused)
+      else match fragment frag (opcodeOf bin) 0 payload with
+        | none => (t, SendRes.error)
+        | some fs => (t, SendRes.sent fs)) = (t'', SendRes.sent fs) →
+      t'' = t ∧ fragment frag (opcodeOf bin) 0 payload = some fs := by
+    intro t'' hk
+    split at hk
+    · cases hk
+    · split at hk
+      · cases hk
+      · rename_i fs' hfs'
+        simp only [Prod.mk.injEq, SendRes.sent.injEq] at hk
+        exact ⟨hk.1.symm, by rw [hfs', hk.2]⟩
+  have : t' = t ∧ fragment frag (opcodeOf bin) 0 payload = some fs := by
+    unfold sendMessage at h
+    cases hp : t.pmce with
+    | none => simp only [hp] at h; exact key _ h
+    | some p => simp only [hp] at h; exact key _ h
+  obtain ⟨ht, hf⟩ := this
+  obtain ⟨htr, hpl⟩ := fragment_train _ _ _ _ _ hf
+  obtain ⟨f, rest, rfl, h1, h2, h3⟩ := htr.shape
+  refine ⟨ht, hpl, ?_, f, rest, rfl, h2⟩
+  intro g hg
+  rcases List.mem_cons.1 hg with rfl | hg
+  · exact h1
+  · exact (h3 g hg).1
+
+/-- **RSV1 on the first frame only**: a compressed `sendMessage` puts RSV1 (and the opcode) on the first frame and
+on no other, for every fragment size; the frames carry exactly deflater output ++ stripped flush output -/
+theorem rsv1_first_frame_only {K : Codec} (t : Tx K) (p : Pmce) (hp : t.pmce = some p) (maxPayload : Nat) (bin : Bool)
+    (frag : Option Nat) (payload : Bytes) (fs : List Frame) (t' : Tx K)
+    (h : sendMessage t maxPayload bin false frag payload = (t', .sent fs)) :
+    ∃ f rest, fs = f :: rest ∧ f.rsv = 4 ∧ f.opcode = opcodeOf bin ∧ (∀ g ∈ rest, g.rsv = 0 ∧ g.opcode = 0)
+      ∧ payloads fs = (K.compress (startCompress p t.comp) payload).2
+          ++ (endCompress (K.compress (startCompress p t.comp) payload).1).2 := by
+  unfold sendMessage at h
+  simp only [hp] at h
+  split at h
+  · cases h
+  · split at h
+    · cases h
+    · rename_i fs' hfs'
+      simp only [Prod.mk.injEq, SendRes.sent.injEq] at h
+      obtain ⟨_, rfl⟩ := h
+      obtain ⟨htr, hpl⟩ := fragment_train _ _ _ _ _ hfs'
+      obtain ⟨f, rest, rfl, h1, h2, h3⟩ := htr.shape
+      exact ⟨f, rest, rfl, h1, h2, h3, hpl⟩
+
+/-- the same for the streaming API (`beginMessage` / `sendMessageFrame`* / `endMessage`) -/
+theorem rsv1_first_frame_only_stream {K : Codec} (t : Tx K) (p : Pmce) (hp : t.pmce = some p) (bin : Bool)
+    (pieces : List Bytes) (hne : pieces ≠ []) :
+    ∃ f rest, (sendStream t bin false pieces).2 = f :: rest ∧ f.rsv = 4 ∧ f.opcode = opcodeOf bin
+      ∧ (∀ g ∈ rest, g.rsv = 0 ∧ g.opcode = 0) := by
+  have hlen := compressAll_length (startCompress p t.comp) pieces
+  simp only [sendStream, hp]
+  cases hout : (K.compressAll (startCompress p t.comp) pieces).2 with
+  | nil =>
+    rw [hout] at hlen
+    cases pieces with
+    | nil => exact absurd rfl hne
+    | cons _ _ => simp at hlen
+  | cons o os =>
+    obtain ⟨htr, _⟩ := stream_train (opcodeOf bin) 4 o os
+      (endCompress (K.compressAll (startCompress p t.comp) pieces).1).2
+    obtain ⟨f, rest, hfs, h1, h2, h3⟩ := htr.shape
+    exact ⟨f, rest, hfs, h1, h2, h3⟩
 
 end Abverif.Pmce
